@@ -48,13 +48,19 @@ WORM_GEAR_AND_WHEEL_AVAILABLE_PRESSURE_ANGLES = [
 ]
 
 
+def _tabulated_pressure_angle_value(pressure_angle: Angle) -> float:
+    return WORM_GEAR_AND_WHEEL_AVAILABLE_PRESSURE_ANGLES[
+        WORM_GEAR_AND_WHEEL_AVAILABLE_PRESSURE_ANGLES.index(pressure_angle)
+    ].value
+
+
 def worm_gear_and_wheel_maximum_helix_angle_function(
         pressure_angle: Angle
 ) -> Angle:
     return Angle(
         value=float(
             WORM_GEAR_AND_WHEEL_DATA.set_index('Pressure Angle').loc[
-                pressure_angle.to('deg').value,
+                _tabulated_pressure_angle_value(pressure_angle),
                 'Maximum Helix Angle'
             ]
         ),
@@ -64,7 +70,7 @@ def worm_gear_and_wheel_maximum_helix_angle_function(
 
 def worm_wheel_lewis_factor_function(pressure_angle: Angle) -> Angle:
     return WORM_GEAR_AND_WHEEL_DATA.set_index('Pressure Angle').loc[
-        pressure_angle.to('deg').value,
+        _tabulated_pressure_angle_value(pressure_angle),
         'Lewis Factor'
     ]
 
